@@ -149,6 +149,19 @@ func runC13(o *opts) (*summary, error) {
 		add([3]int{y, m, d}, "random")
 	}
 
+	// clock readings (civil, in the process zone) around every offset change, by day
+	near := map[[3]int][][3]int{}
+	for _, e := range transitionsIn(time.Local) {
+		for _, off := range []int64{-5 * 3600, -3601, -1800, -1, 0, 1, 1800, 3600, 2*3600 + 900, 5 * 3600, 9 * 3600} {
+			t := time.Unix(e+off, 0).In(time.Local)
+			y, m, dd := t.Date()
+			h, mi, sec := t.Clock()
+			k := [3]int{y, int(m), dd}
+			if len(near[k]) < 14 {
+				near[k] = append(near[k], [3]int{h, mi, sec})
+			}
+		}
+	}
 	emit := func(op, kind, class string, civil M, exists bool, f func() (M, []byte)) {
 		var rep M
 		var wire []byte
@@ -219,16 +232,12 @@ func runC13(o *opts) (*summary, error) {
 			})
 		}
 		// date-times on that day
-		for k := 0; k < 5; k++ {
-			h, mi, s := rng.Intn(24), rng.Intn(60), rng.Intn(60)
-			switch k {
-			case 0:
-				h, mi, s = 0, 0, 0
-			case 3:
-				h, mi, s = 23, 59, 59
-			case 4:
-				h, mi, s = 12, 0, 0
-			}
+		// (midnight, noon, the last second, two random readings - and, on a day with an offset change, readings
+		// around the change itself: a decode that is only wrong within a few hours of a transition is wrong there)
+		rs := [][3]int{{0, 0, 0}, {rng.Intn(24), rng.Intn(60), rng.Intn(60)}, {rng.Intn(24), rng.Intn(60), rng.Intn(60)}, {23, 59, 59}, {12, 0, 0}}
+		rs = append(rs, near[d]...)
+		for _, r := range rs {
+			h, mi, s := r[0], r[1], r[2]
 			cdt := M{"t": "dt", "y": y, "m": m, "d": dd, "h": h, "mi": mi, "s": s}
 			tex := timeExists(y, m, dd, h, mi, s)
 			emit("DateTimeDecode", "datetime", class, cdt, tex, func() (M, []byte) {
